@@ -1334,6 +1334,10 @@ func (e *Engine) elemOp(fn *ssa.Function) string {
 			return ""
 		}
 	}
+	if op := e.elemOpAppend(fn); op != "" {
+		e.elemops[fn] = op
+		return op
+	}
 	a, b := fn.Params[0], fn.Params[1]
 	var mk *ssa.MakeSlice
 	var store *ssa.Store
@@ -1375,6 +1379,9 @@ func (e *Engine) elemOp(fn *ssa.Function) string {
 		}
 	}
 	if mk == nil || store == nil || nRet != 1 || headers != 1 {
+		return ""
+	}
+	if c, ok := mk.Len.(*ssa.Const); ok && c.Value != nil && c.Int64() == 0 {
 		return ""
 	}
 	if l, ok := mk.Len.(*ssa.Call); !ok || !isBuiltin(l, "len") || (l.Call.Args[0] != ssa.Value(a) && l.Call.Args[0] != ssa.Value(b)) {
@@ -1428,6 +1435,138 @@ func (e *Engine) elemOp(fn *ssa.Function) string {
 	}
 	e.elemops[fn] = val.Name
 	return e.elemops[fn]
+}
+
+// elemOpAppend recognises the appending form of an element-wise helper:
+//
+//	out := make([]T, 0, n); for i := range a { out = append(out, a[i] op b[i]) }; return out
+//
+// one loop whose single body block appends exactly one element per iteration,
+// the index running from 0 over every index of an operand.
+func (e *Engine) elemOpAppend(fn *ssa.Function) string {
+	a, b := fn.Params[0], fn.Params[1]
+	var mk *ssa.MakeSlice
+	var app *ssa.Call
+	var store *ssa.Store
+	var ret *ssa.Return
+	var hdr *ssa.BasicBlock
+	headers := 0
+	for _, blk := range fn.Blocks {
+		if isHeaderBlock(blk) {
+			headers++
+			hdr = blk
+		}
+		for _, in := range blk.Instrs {
+			switch x := in.(type) {
+			case *ssa.MakeSlice:
+				if mk != nil {
+					return ""
+				}
+				mk = x
+			case *ssa.Return:
+				if ret != nil || len(x.Results) != 1 {
+					return ""
+				}
+				ret = x
+			case *ssa.Store:
+				if store != nil {
+					return ""
+				}
+				store = x
+			case *ssa.Call:
+				switch {
+				case isBuiltin(x, "len"):
+				case isBuiltin(x, "append"):
+					if app != nil {
+						return ""
+					}
+					app = x
+				default:
+					return ""
+				}
+			case *ssa.Go, *ssa.Defer, *ssa.MapUpdate, *ssa.Send, *ssa.Panic:
+				return ""
+			}
+		}
+	}
+	if mk == nil || app == nil || store == nil || ret == nil || headers != 1 || len(app.Call.Args) != 2 {
+		return ""
+	}
+	if c, ok := mk.Len.(*ssa.Const); !ok || c.Value == nil || c.Int64() != 0 {
+		return ""
+	}
+	acc, ok := app.Call.Args[0].(*ssa.Phi)
+	if !ok || acc.Block() != hdr || ret.Results[0] != ssa.Value(acc) || len(acc.Edges) != 2 {
+		return ""
+	}
+	if !((acc.Edges[0] == ssa.Value(mk) && acc.Edges[1] == ssa.Value(app)) || (acc.Edges[1] == ssa.Value(mk) && acc.Edges[0] == ssa.Value(app))) {
+		return ""
+	}
+	// the body is one block executed on every iteration
+	body := app.Block()
+	if len(body.Succs) != 1 || body.Succs[0] != hdr || len(hdr.Succs) != 2 || hdr.Succs[0] != body || store.Block() != body {
+		return ""
+	}
+	sl, ok := app.Call.Args[1].(*ssa.Slice)
+	if !ok {
+		return ""
+	}
+	arr, ok := sl.X.(*ssa.Alloc)
+	if !ok {
+		return ""
+	}
+	if at, ok := arr.Type().Underlying().(*types.Pointer); !ok {
+		return ""
+	} else if ar, ok := at.Elem().Underlying().(*types.Array); !ok || ar.Len() != 1 {
+		return ""
+	}
+	ia, ok := store.Addr.(*ssa.IndexAddr)
+	if !ok || ia.X != ssa.Value(arr) {
+		return ""
+	}
+	ctx := &Ctx{Fn: fn} // parameters stay symbolic
+	val := StripConv(e.Eval(store.Val, ctx))
+	if val.Op != OpBin || len(val.Args) != 2 {
+		return ""
+	}
+	pa := StripConv(e.Eval(a, ctx))
+	pb := StripConv(e.Eval(b, ctx))
+	var idx *Term
+	elemOf := func(t, of *Term) bool {
+		t = StripConv(t)
+		if t.Op != OpIndex || !Eq(StripConv(t.Args[0]), of) {
+			return false
+		}
+		i := StripConv(t.Args[1])
+		if i.Op != OpIter || len(i.Args) != 2 || !i.Args[0].IsConst("0") || !i.Args[1].IsConst("1") {
+			return false
+		}
+		if idx == nil {
+			idx = i
+		}
+		return Eq(i, idx)
+	}
+	x, y := val.Args[0], val.Args[1]
+	inOrder := elemOf(x, pa) && elemOf(y, pb)
+	if !inOrder {
+		idx = nil
+		if !(elemOf(x, pb) && elemOf(y, pa) && commutative[val.Name]) {
+			return ""
+		}
+	}
+	iff, ok := hdr.Instrs[len(hdr.Instrs)-1].(*ssa.If)
+	if !ok {
+		return ""
+	}
+	cond := StripConv(e.Eval(iff.Cond, ctx))
+	if cond.Op != OpBin || cond.Name != "<" || !Eq(StripConv(cond.Args[0]), idx) {
+		return ""
+	}
+	bound := StripConv(cond.Args[1])
+	if bound.Op != OpLen || !(Eq(StripConv(bound.Args[0]), pa) || Eq(StripConv(bound.Args[0]), pb)) {
+		return ""
+	}
+	return val.Name
 }
 
 func isHeaderBlock(b *ssa.BasicBlock) bool {
